@@ -32,6 +32,14 @@ func mIn(v plan.Value) (plan.Value, bool) {
 		return plan.Float(v.F), true
 	case "nan":
 		return plan.Value{T: "nan"}, true
+	case "nilbytes":
+		return plan.Bytes([]byte{}), true
+	case "nilmap":
+		return plan.Value{T: "map", M: map[string]plan.Value{}}, true
+	case "nilslice":
+		return plan.Value{T: "array"}, true
+	case "nilerror":
+		return plan.Nil(), true
 	case "string":
 		return plan.Str(v.S), true
 	case "bool":
